@@ -59,8 +59,20 @@ func cursorCase(id int, seed int64, out *json.Encoder) {
 	cfg.VT = valTypes[rng.Intn(len(valTypes))]
 	cfg.NF = []string{"bin", "v1"}[rng.Intn(2)]
 	cfg.Cache = []string{"none", "large"}[rng.Intn(2)]
+	var tall []int
+	if rng.Intn(8) == 0 {
+		// a tall tree: branch factor 2, 34-48 keys with layers up to 6, so that cursor paths get 5 and more entries deep
+		cfg.Bf, cfg.KT, cfg.NK = 2, "userkey", 34+rng.Intn(15)
+		for i := 0; i < cfg.NK; i++ {
+			l := 0
+			for l < 6 && rng.Intn(2) == 0 {
+				l++
+			}
+			tall = append(tall, l)
+		}
+	}
 	r := &diffRun{cfg: cfg, rng: rng}
-	r.kc = newKeyCodec(cfg.KT, cfg.NK, cfg.Bf, rng, nil, 3)
+	r.kc = newKeyCodec(cfg.KT, cfg.NK, cfg.Bf, rng, tall, 3)
 	r.cfg.Layers = r.kc.layers
 	r.vc = newValCodec(cfg.VT)
 	r.st = newRecStore(fmt.Sprintf("cur-%d", id))
@@ -69,6 +81,17 @@ func cursorCase(id int, seed int64, out *json.Encoder) {
 
 	s := r.fresh()
 	ev.Mode = []string{"memory", "memory", "persisted", "persisted", "dirty", "fresh", "emptied", "emptied-persisted"}[rng.Intn(8)]
+	if tall != nil {
+		for k := 1; k <= cfg.NK; k++ {
+			if rng.Intn(12) != 0 {
+				v := 1 + rng.Intn(2)
+				if err := s.m.Insert(ctx, r.kc.Key(k), r.vc.Val(v)); err != nil {
+					panic(err)
+				}
+				s.model[k] = v
+			}
+		}
+	}
 	switch ev.Mode {
 	case "memory":
 		r.mutate(s, 1+rng.Intn(3*cfg.NK), 3)
